@@ -63,7 +63,31 @@ structure Sess where
   model : Option St := none
   lastImpl : String := ""          -- the implementation's digest after the previous operation
   ready : List (String × Bool) := []   -- connectivity of each endpoint's pool, as the harness last set it
+  histDefault : String := ""           -- the default name of the last accepted new / upd (history, not the printed state)
+  histOpts : List (String × List String) := []   -- the MultiEndpoints configured by the last accepted new / upd
   deriving Inhabited
+
+/-- the printed MultiEndpoints with priorities: (name, [(endpoint, priority)]) -/
+def parseMesPrio (dg : String) : List (String × List (String × Nat)) :=
+  let o := args (dg.splitOn " ")
+  ((arg o "mes").splitOn ";").filterMap fun item =>
+    match item.splitOn ":" with
+    | [name, _, eps] =>
+      some (name, (eps.splitOn "+").filterMap fun e =>
+        match e.splitOn "/" with
+        | [id, p, _] => p.toNat?.map fun n => (id, n)
+        | _ => none)
+    | _ => none
+
+/-- C15: the configured MultiEndpoints are exactly those of the last accepted options, each with the
+    configured endpoints at the configured positions -/
+def configMatches (hist : List (String × List String)) (dg : String) : Bool :=
+  let mes := parseMesPrio dg
+  (mes.all fun (n, eps) =>
+    match hist.find? (fun h => h.1 == n) with
+    | some (_, l) => (eps.all fun (id, p) => l[p]? == some id) && l.all fun id => eps.any fun q => q.1 == id
+    | none => false) &&
+  hist.all fun (n, _) => mes.any fun m => m.1 == n
 
 /-- the printed MultiEndpoints: (name, current, [(endpoint, status letter)]) -/
 def parseMes (dg : String) : List (String × String × List (String × String)) :=
@@ -86,13 +110,13 @@ def reflectsPools (ready : List (String × Bool)) (dg : String) : Bool :=
     | _ => st != "A"
 
 /-- C15: the pool an RPC must use, read off the printed state -/
-def expectedPool (dg : String) (name : Option String) : Option String :=
+def expectedPool (dg : String) (histNames : List String) (histDefault : String) (name : Option String) : Option String :=
   let mes := parseMes dg
-  let o := args (dg.splitOn " ")
-  let byName (n : String) := (mes.find? fun m => m.1 == n).map fun m => m.2.1
+  -- which names exist and which one is the default is taken from the history of accepted updates
+  let byName (n : String) := if histNames.contains n then (mes.find? fun m => m.1 == n).map fun m => m.2.1 else none
   match name.bind byName with
   | some cur => some cur
-  | none => byName (arg o "default")
+  | none => byName histDefault
 
 def handle (sess : Sess) (rep : Report) (ln : Nat) (toks : List String) (obs : String) : Sess × Report :=
   let a := args toks.tail
@@ -109,6 +133,12 @@ def handle (sess : Sess) (rep : Report) (ln : Nat) (toks : List String) (obs : S
     | "new" => { sess with ready := [] }
     | _ => sess
   let sess := if (op == "new" || op == "upd") && obs.startsWith "ok" then
+      { sess with histDefault := arg a "default",
+                  histOpts := (parseOpts (arg a "opts")).filterMap fun p => p.2.map fun l => (p.1, l) }
+    else sess
+  let rep := if (op == "new" || op == "upd") && obs.startsWith "ok" && implDigest != "" && !configMatches sess.histOpts implDigest
+    then fail rep ln "C15" "configured_multiendpoints" else rep
+  let sess := if (op == "new" || op == "upd") && obs.startsWith "ok" then
       -- pools that were closed lose their record
       let pools := plusList (arg (args (implDigest.splitOn " ")) "pools")
       { sess with ready := sess.ready.filter fun p => pools.contains p.1 }
@@ -122,7 +152,7 @@ def handle (sess : Sess) (rep : Report) (ln : Nat) (toks : List String) (obs : S
     then fail rep ln "C15" "reflects_pool_connectivity" else rep
   let rep := if op == "rpc" && sess.lastImpl != "" && obs.startsWith "pool=" then
       let name := if arg a "name" == "-" then none else some (arg a "name")
-      match expectedPool sess.lastImpl name with
+      match expectedPool sess.lastImpl (sess.histOpts.map (·.1)) sess.histDefault name with
       | some e => if obs == s!"pool={e}" then rep else fail rep ln "C15" "rpc_routes_current"
       | none => rep
     else rep
